@@ -158,6 +158,7 @@ type Job struct {
 	Cube        int               `json:"cube,omitempty"`            // number of nonlinear polynomials to case-split by sign
 	NoCover     bool              `json:"no_cover,omitempty"`
 	NoKnown     bool              `json:"no_known,omitempty"`        // skip known-finding obligations (their presence is established by witness replay)
+	IntBound    int64             `json:"int_bound,omitempty"`       // bound of the integer re-query that makes a model replayable (default 2^20)
 	Nlsat       bool              `json:"nlsat_first,omitempty"`     // conjunctive path queries: z3 4.8.12 default tactic only, others on unknown
 	Abstract    bool              `json:"abstract_floats,omitempty"` // harness runs with uninterpreted float arithmetic: cover witnesses are not replayed natively
 	Combine     bool              `json:"combine,omitempty"`         // one query per path: the disjunction of all assertion violations
@@ -497,7 +498,11 @@ func (r *Runner) runJob(job Job) *JobResult {
 				}
 			}
 			if len(iv) > 0 {
-				q.intScript = Script([]*Term{ob.Formula}, ScriptOpts{GetValues: gv, IntVars: iv, IntBound: 1 << 20})
+				ib := int64(1 << 20)
+				if job.IntBound > 0 {
+					ib = job.IntBound
+				}
+				q.intScript = Script([]*Term{ob.Formula}, ScriptOpts{GetValues: gv, IntVars: iv, IntBound: ib})
 				if !job.NoLattice {
 					q.intSmall = Script([]*Term{ob.Formula}, ScriptOpts{GetValues: gv, IntVars: iv, IntBound: 8})
 				}
